@@ -152,6 +152,8 @@ def gen_cases(ctx):
 # ----------------------------------------------------------------------------- property oracle
 def oracle(case, out):
     """independent of the Coq model: bookkeeping of message identities only"""
+    deferred = []     # discrepancies of the stash's own state/result codes: reported only when no message-level
+                      # consequence (lost / duplicated / reordered / hung) shows up in the same history
     box = []          # identities stashed and not yet unstashed (stash order)
     unstashed = []    # identities moved out of the stash, in order
     deliveries = []   # identities in delivery order
@@ -161,8 +163,8 @@ def oracle(case, out):
     for s in steps:
         if s.get("rot"):
             if s.get("size", 0) != len(box):
-                return ("stash:size", "after the context pool was rotated (other actors exchanged %s messages) StashSize()=%d although %d messages %s are stashed and not unstashed" %
-                        ("2 x pool capacity", s.get("size", 0), len(box), box[:10]), {"parked": list(box)})
+                deferred.append(("stash:size", "after the context pool was rotated (other actors exchanged %s messages) StashSize()=%d although %d messages %s are stashed and not unstashed" %
+                        ("2 x pool capacity", s.get("size", 0), len(box), box[:10]), {"parked": list(box)}))
             continue
         n += 1
         deliveries.append(s["id"])
@@ -176,22 +178,22 @@ def oracle(case, out):
                 continue
             if a == "S":
                 if r["err"]:
-                    return ("stash:stash-error", "Stash with a buffer reported %r" % r["err"], {"delivery": n})
+                    deferred.append(("stash:stash-error", "Stash with a buffer reported %r" % r["err"], {"delivery": n}))
                 box.append(s["id"])
             elif a == "U":
                 if box:
                     if r["err"]:
-                        return ("stash:unstash-error", "Unstash with %d stashed messages reported %r" % (len(box), r["err"]), {"delivery": n})
+                        deferred.append(("stash:unstash-error", "Unstash with %d stashed messages reported %r" % (len(box), r["err"]), {"delivery": n}))
                     unstashed.append(box.pop(0))   # the oldest
                 elif not r["err"]:
-                    return ("stash:unstash-empty-no-error", "Unstash on an empty stash reported no error", {"delivery": n})
+                    deferred.append(("stash:unstash-empty-no-error", "Unstash on an empty stash reported no error", {"delivery": n}))
             else:
                 if r["err"]:
-                    return ("stash:unstashall-error", "UnstashAll reported %r" % r["err"], {"delivery": n})
+                    deferred.append(("stash:unstashall-error", "UnstashAll reported %r" % r["err"], {"delivery": n}))
                 unstashed += box               # all, in stash order
                 box = []
             if r["after"] != len(box):
-                return ("stash:size", "after %s in delivery %d StashSize()=%d, %d messages are stashed and not unstashed" % (ACT[a], n, r["after"], len(box)), {"delivery": n})
+                deferred.append(("stash:size", "after %s in delivery %d StashSize()=%d, %d messages are stashed and not unstashed" % (ACT[a], n, r["after"], len(box)), {"delivery": n}))
     if out.get("hung"):
         ev = out.get("hung_event", -1)
         call = out.get("hung_call", -1)
@@ -199,8 +201,9 @@ def oracle(case, out):
         if ev >= 0 and call >= 0:
             d = case["events"][ev].get("d") or []
             act = ACT.get(d[call], "?") if call < len(d) else "?"
-            return ("stash:call-never-returns", "%s (call %d of the delivery at event %d) did not return: %s; the actor is blocked for good and the %d stashed messages %s are never re-delivered" %
-                    (act, call, ev, where, len(box), box[:10]), {"event": ev, "call": call, "parked": list(box)})
+            consequence = ("the %d stashed messages %s are never re-delivered" % (len(box), box[:10])) if box else "whatever is stashed or sent to it afterwards is never delivered"
+            return ("stash:call-never-returns", "%s (call %d of the delivery at event %d) did not return: %s; the actor is blocked for good, %s" %
+                    (act, call, ev, where, consequence), {"event": ev, "call": call, "parked": list(box)})
         counts = {}
         for m in deliveries:
             counts[m] = counts.get(m, 0) + 1
@@ -219,7 +222,7 @@ def oracle(case, out):
             redelivered.append(m)
         seen[m] = seen.get(m, 0) + 1
     if out["final_size"] != len(box):
-        return ("stash:size", "final StashSize()=%d, expected %d" % (out["final_size"], len(box)), {})
+        deferred.append(("stash:size", "final StashSize()=%d, expected %d" % (out["final_size"], len(box)), {}))
     for m in arrived:
         want = 1 + unstashed.count(m)
         if seen.get(m, 0) != want:
@@ -231,6 +234,8 @@ def oracle(case, out):
             return ("stash:duplicated", "delivery of identity %d that was never sent" % m, {})
     if redelivered != unstashed:
         return ("stash:reordered", "re-deliveries came in order %s, the messages left the stash in order %s" % (redelivered[:20], unstashed[:20]), {"redelivered": redelivered, "unstashed": unstashed})
+    if deferred:
+        return deferred[0]
     return None
 
 
@@ -317,12 +322,15 @@ def run(ctx):
 
     n_bad = 0
     n_skipped = 0
+    n_incomplete = 0
     for c, o in zip(cases, outs):
         if o is not None and o.get("skipped"):
             n_skipped += 1
             continue
         if o is None or o.get("err"):
-            ctx.tie_broken("go-harness case did not complete", {"case": c, "err": (o or {}).get("err")})
+            n_incomplete += 1
+            if n_incomplete == 1:
+                ctx.tie_broken("go-harness case did not complete", {"case": c, "err": (o or {}).get("err")})
             continue
         v = oracle(c, o)
         if v:
